@@ -866,6 +866,9 @@ func (cfg *Config) quotedElemFields(pe *syntax.ParamExp) ([]string, error) {
 				return vr.indexedKeys(), nil
 			case Associative:
 				return slices.Collect(maps.Keys(vr.Map)), nil
+			case Unknown:
+				// An unset variable has no keys, so zero fields.
+				return []string{}, nil
 			}
 		}
 		return nil, nil
